@@ -3,11 +3,13 @@
 package server
 
 import (
-	"time"
-
 	"github.com/DataDog/datadog-traceroute/traceroute"
 )
 
+// VerifNewServer: the repository's own constructor (whatever else it initialises stays initialised), with the
+// Traceroute value replaced by the harness's.
 func VerifNewServer(tr *traceroute.Traceroute) *Server {
-	return &Server{tr: tr, startTime: time.Now()}
+	s := NewServer()
+	s.tr = tr
+	return s
 }
